@@ -63,7 +63,7 @@ def main():
             junit = f"/tmp/seedverify_{sid}.junit.xml"
             targs = tests or ""
             t0 = time.time()
-            t = sh(f"/venv/bin/python -m pytest -q -p no:cacheprovider --no-cov --timeout=900 --continue-on-collection-errors --junitxml={junit} {targs}",
+            t = sh(f"/venv/bin/python -m pytest -q -p no:cacheprovider --no-cov --timeout=2400 --continue-on-collection-errors --junitxml={junit} {targs}",
                    cwd=wt, env=env, timeout=7200)
             res["suite_s"] = round(time.time() - t0)
             res["suite_tail"] = t.stdout[-400:]
